@@ -78,6 +78,9 @@ func c08(c *Ctx) {
 	c08ListenerOwnVariables(c)
 	c08DetectorPresence(c)
 	decodeTargetsFresh(c, "entry-struct-fresh")
+	// at most one entry of the port table matches a connection: a definition that is compatible with an earlier one is
+	// not entered (shared with C19), otherwise the selector picks among overlapping entries by map order
+	c19Run(c)
 }
 
 func c08Selector(c *Ctx, find, peek *ssa.Function, peekT *types.Named) {
